@@ -152,17 +152,50 @@ fn show_chunk(c: &Chunk) -> String {
     format!("{}:{}:{}:{}:{}", c.off, c.dlen, c.last as u8, c.body.len(), fnv_chain(FNV_BASIS, &c.body))
 }
 
-/// reason strings are `r<k>`; printed as `k` (anything else prints as `?<text>` and will not match the model)
+/// Cancel reasons are opaque values for the model (one `Nat` token per distinct string). Token `k` below
+/// 10^9+7 is the string `r<k>`; the tokens from 10^9+7 on are the edge strings of `reason_text` (the
+/// watchdog's own reason, the empty string, whitespace, a very long one, non-ASCII, and strings that only
+/// differ from another reason by case / surrounding blanks). Any other string prints as `?<text>` and will
+/// not match the model.
 const IDLE_REASON: u64 = 1_000_000_007;
+const EMPTY_REASON: u64 = 1_000_000_008;
+const BLANK_REASON: u64 = 1_000_000_009;
+const LONG_REASON: u64 = 1_000_000_010;
+const UNICODE_REASON: u64 = 1_000_000_011;
+const NUL_REASON: u64 = 1_000_000_012;
+const PADDED_IDLE_REASON: u64 = 1_000_000_013;
+const EDGE_REASONS: [u64; 7] = [IDLE_REASON, EMPTY_REASON, BLANK_REASON, LONG_REASON, UNICODE_REASON, NUL_REASON, PADDED_IDLE_REASON];
+const LONG_REASON_LEN: usize = 65_537;
+
+fn reason_text(tok: u64) -> String {
+    match tok {
+        IDLE_REASON => "transfer idle".to_string(),
+        EMPTY_REASON => String::new(),
+        BLANK_REASON => " \t\n".to_string(),
+        LONG_REASON => "x".repeat(LONG_REASON_LEN),
+        UNICODE_REASON => "отмена \u{2702} 取消 \u{1F6D1}".to_string(),
+        NUL_REASON => "\0".to_string(),
+        PADDED_IDLE_REASON => " Transfer Idle ".to_string(),
+        k => format!("r{}", k),
+    }
+}
 
 fn show_reason(r: &str) -> String {
-    if r == "transfer idle" {
-        return IDLE_REASON.to_string();
+    for tok in EDGE_REASONS {
+        // (length first: no 64 KiB string is built unless the length matches)
+        if (tok != LONG_REASON || r.len() == LONG_REASON_LEN) && r == reason_text(tok) {
+            return tok.to_string();
+        }
     }
-    match r.strip_prefix('r').and_then(|k| k.parse::<u64>().ok()) {
-        Some(k) => k.to_string(),
-        None => format!("?{}", r),
+    match r.strip_prefix('r').and_then(|k| if k.starts_with('+') { None } else { k.parse::<u64>().ok() }) {
+        Some(k) if k < IDLE_REASON && r == format!("r{}", k) => k.to_string(),
+        _ => format!("?{}[{} bytes]", r.chars().take(40).collect::<String>().escape_debug(), r.len()),
     }
+}
+
+/// the reasons the random generators draw from: mostly small tokens, one third edge strings
+fn pick_reason(r: &mut Rng) -> u64 {
+    if r.chance(1, 3) { *r.pick(&EDGE_REASONS) } else { r.below(3) }
 }
 
 fn show_ret(r: &Ret) -> String {
@@ -302,8 +335,7 @@ fn call_tc(tc: &TransferControl, op: &Op) -> Ret {
                 Ret::Unit
             }
             Op::Cancel(r) => {
-                // reason token 1000000007 is the watchdog's own reason string
-                tc.cancel(if *r == IDLE_REASON { "transfer idle".to_string() } else { format!("r{}", r) });
+                tc.cancel(reason_text(*r));
                 Ret::Unit
             }
             Op::Advance(f) => {
@@ -499,22 +531,22 @@ fn oracles(c: &Ctl, op: &Op, ret: &Ret, before: &Option<Snap>, after: &Option<Sn
     }
     if let Some(first) = &c.first_reason {
         if a.reason.as_ref() != Some(first) {
-            fail("transfer.cancel.reason_changed", format!("cancel reason was {:?}, now {:?}", first, a.reason));
+            fail("transfer.cancel.reason_changed", format!("cancel reason was {} ({:?}), now {}", show_reason(first), first.chars().take(40).collect::<String>(), a.reason.as_deref().map(show_reason).unwrap_or_else(|| "-".into())));
         }
         match ret {
             Ret::CreditOk | Ret::CreditTimeout | Ret::ReconnResume(_) | Ret::ReconnTimeout => {
                 fail("transfer.cancel.wait_not_reported", format!("{} after cancel returned {}", op.kind(), show_ret(ret)))
             }
             Ret::CreditCancelled(r) | Ret::ReconnCancelled(r) if r != first => {
-                fail("transfer.cancel.wait_wrong_reason", format!("{} reported {:?}, first reason {:?}", op.kind(), r, first))
+                fail("transfer.cancel.wait_wrong_reason", format!("{} reported reason {}, first reason {}", op.kind(), show_reason(r), show_reason(first)))
             }
             Ret::ResumeOk(_) => fail("transfer.cancel.resume_accepted", "request_resume accepted after cancel".into()),
             _ => {}
         }
     } else if let Op::Cancel(r) = op {
-        let want = if *r == IDLE_REASON { "transfer idle".to_string() } else { format!("r{}", r) };
+        let want = reason_text(*r);
         if a.reason.as_deref() != Some(&want[..]) {
-            fail("transfer.cancel.not_recorded", format!("first cancel(r{}) left reason {:?}", r, a.reason));
+            fail("transfer.cancel.not_recorded", format!("first cancel (reason token {}) left reason {}", r, a.reason.as_deref().map(show_reason).unwrap_or_else(|| "-".into())));
         }
     }
     // ---- C13: ring = suffix of the pushes since the last advance, byte-identical, newest kept, bounded
@@ -703,7 +735,7 @@ fn alpha(name: &str) -> Option<Vec<T>> {
             o(Op::Sent(1)), o(Op::Sent(2)), o(Op::Sent(3)),
             o(Op::Ack(0, 0)), o(Op::Ack(0, 1)), o(Op::Ack(0, 2)), o(Op::Ack(0, 3)),
             o(Op::Ack(1, 1)), o(Op::Ack(1, 2)), o(Op::Ack(1, 3)),
-            o(Op::Cancel(0)), o(Op::Cancel(1)), o(Op::Advance(0)), o(Op::Advance(1)),
+            o(Op::Cancel(0)), o(Op::Cancel(EMPTY_REASON)), o(Op::Advance(0)), o(Op::Advance(1)),
             o(Op::Resume(7, 0, 0)), o(Op::Resume(7, 0, 1)), o(Op::Resume(7, 0, 2)),
             o(Op::Resume(7, 1, 0)), o(Op::Resume(7, 1, 1)), o(Op::Resume(7, 1, 2)),
             o(Op::Credit(1)), o(Op::Credit(2)), o(Op::Credit(3)), o(Op::Reconnect),
@@ -712,6 +744,12 @@ fn alpha(name: &str) -> Option<Vec<T>> {
         "c11s" => vec![
             o(Op::Sent(1)), o(Op::Sent(3)), o(Op::Ack(0, 1)), o(Op::Ack(0, 3)), o(Op::Ack(1, 3)),
             o(Op::Credit(1)), o(Op::Credit(3)), o(Op::Cancel(0)), o(Op::Advance(1)), o(Op::Resume(7, 0, 1)),
+        ],
+        // cancel with every edge reason string, and everything that reports or could disturb the reason
+        "c11r" => vec![
+            o(Op::Cancel(0)), o(Op::Cancel(IDLE_REASON)), o(Op::Cancel(EMPTY_REASON)), o(Op::Cancel(BLANK_REASON)),
+            o(Op::Cancel(LONG_REASON)), o(Op::Cancel(UNICODE_REASON)), o(Op::Cancel(NUL_REASON)), o(Op::Cancel(PADDED_IDLE_REASON)),
+            o(Op::Credit(3)), o(Op::Reconnect), o(Op::Advance(1)), o(Op::Resume(7, 0, 0)),
         ],
         "c13" => vec![
             T::Push(0, 0), T::Push(0, 1), T::Push(1, 0), T::Push(1, 1), T::Push(2, 0), T::Push(2, 1),
@@ -734,6 +772,7 @@ fn domain(d: &str) -> Option<(u64, u64, Vec<T>)> {
     match parts[..] {
         ["c11"] => Some((2, 3, alpha("c11")?)),
         ["c11s"] => Some((2, 3, alpha("c11s")?)),
+        ["c11r"] => Some((2, 3, alpha("c11r")?)),
         ["c13", cap] => Some((4, cap.parse().ok()?, alpha("c13")?)),
         ["c13s", cap] => Some((4, cap.parse().ok()?, alpha("c13s")?)),
         _ => None,
@@ -1189,6 +1228,9 @@ fn conc_targeted(ring: bool) -> Vec<String> {
     } else {
         v.push(format!("2 8 {} :: r7.0.1,k1 c0,k1,o a0.2,k1", setup));
         v.push(format!("2 8 {} :: s3,k1 a0.3,o a1.3,k2", setup));
+        // a blank cancel racing the watchdog's reason and a reporting wait: whichever is first stays
+        v.push(format!("2 8 {} :: c{},k3,n c{},n,w k3,n", setup, EMPTY_REASON, IDLE_REASON));
+        v.push(format!("2 8 {},c{} :: c{},n c{},k3 w,n", setup, EMPTY_REASON, IDLE_REASON, BLANK_REASON));
     }
     v
 }
@@ -1229,7 +1271,7 @@ fn gen_conc(r: &mut Rng, ring: bool) -> String {
             let k = if t == 0 && ops.is_empty() { r.below(3) } else { r.below(14) };
             ops.push(match k {
                 0 | 1 => format!("r{}.{}.{}", 7 + t, r.below(2), r.below(off + 2)),
-                2 | 3 => format!("c{}", t),
+                2 | 3 => if r.chance(1, 3) { format!("c{}", r.pick(&EDGE_REASONS)) } else { format!("c{}", t) },
                 4 => format!("v{}", r.below(2)),
                 5 => format!("a{}.{}", r.below(2), r.range(0, 4)),
                 6 => format!("s{}", r.range(1, 5)),
@@ -1271,6 +1313,9 @@ fn watchdog_scenario() -> (String, Vec<Fail>) {
     let snap_of = |tc: &Arc<TransferControl>| Ctl { tc: tc.clone(), ..Ctl::new(0, 0) }.snap();
     let (a, b, c, d) = (mk(), TransferControl::with_replay_capacity(8, 64), TransferControl::with_replay_capacity(8, 64), TransferControl::with_replay_capacity(8, 64));
     b.cancel("r5");
+    // E: idle like A, but already cancelled with a blank reason (a wire cancel without `reason`)
+    let e = mk();
+    e.cancel("");
     let a_before = snap_of(&a);
     let reg: Arc<TransferRegistry<u64>> = Arc::new(TransferRegistry::new());
     let mut reg_ok = true;
@@ -1285,6 +1330,7 @@ fn watchdog_scenario() -> (String, Vec<Fail>) {
     let mut keys: Vec<u64> = reg.snapshot().into_iter().map(|(k, _)| k).collect();
     keys.sort();
     reg_ok &= keys == vec![1, 2] && reg.len() == 2;
+    reg.register(5, e.clone());
     if !reg_ok {
         fail("transfer.registry.map_semantics", "register / get / unregister / snapshot / len do not behave as a map from keys to controls".into());
     }
@@ -1322,6 +1368,9 @@ fn watchdog_scenario() -> (String, Vec<Fail>) {
     if b.cancel_reason().as_deref() != Some("r5") {
         fail("transfer.watchdog.overwrote_reason", format!("a transfer cancelled with r5 now has reason {:?}", b.cancel_reason()));
     }
+    if e.cancel_reason().as_deref() != Some("") {
+        fail("transfer.watchdog.overwrote_reason", format!("a transfer cancelled with the empty reason now has reason {:?}", e.cancel_reason()));
+    }
     if c.is_cancelled() {
         fail("transfer.watchdog.cancelled_unregistered", "a transfer that was unregistered before the watchdog started was cancelled".into());
     }
@@ -1330,7 +1379,7 @@ fn watchdog_scenario() -> (String, Vec<Fail>) {
     }
     drop(reg);
     drop(reg2);
-    (format!("watchdog A={}/{} B={} C={} D={} reg={}", show(&a), if same { "same" } else { "changed" }, show(&b), show(&c), show(&d), if reg_ok { "ok" } else { "bad" }), fails)
+    (format!("watchdog A={}/{} B={} C={} D={} E={} reg={}", show(&a), if same { "same" } else { "changed" }, show(&b), show(&c), show(&d), show(&e), if reg_ok { "ok" } else { "bad" }), fails)
 }
 
 fn exec_watchdog(out: &mut Out, line: &str, res: (String, Vec<Fail>)) {
@@ -1416,7 +1465,7 @@ fn gen_free(r: &mut Rng, ctl: &Ctl, snap: &Snap, ring_bias: bool) -> Op {
         3 | 4 | 5 => Op::Ack(gen_file(r, ctl.file), lattice(r, &near)),
         6 | 7 => Op::Credit(gen_len(r, ctl.window)),
         8 => {
-            if r.chance(1, 6) { Op::Cancel(if r.chance(1, 3) { IDLE_REASON } else { r.below(3) }) } else { Op::Reconnect }
+            if r.chance(1, 6) { Op::Cancel(pick_reason(r)) } else { Op::Reconnect }
         }
         9 => {
             if r.chance(1, 3) { Op::Advance(gen_file(r, ctl.file)) } else { Op::SetPeer(r.below(4)) }
@@ -1494,7 +1543,7 @@ fn gen_loop(r: &mut Rng, ctl: &Ctl, snap: &Snap, p: &mut Producer) -> Op {
             6 => Op::Resume(r.range(1, 5), gen_file(r, ctl.file), if snap.ring.is_empty() { lattice(r, &near) } else { r.pick(&snap.ring).off }),
             7 => Op::Reconnect,
             8 => {
-                if r.chance(1, 8) { Op::Cancel(if r.chance(1, 3) { IDLE_REASON } else { r.below(3) }) } else { Op::Replay(lattice(r, &near)) }
+                if r.chance(1, 8) { Op::Cancel(pick_reason(r)) } else { Op::Replay(lattice(r, &near)) }
             }
             _ => Op::Ack(ctl.file, u64::MAX - r.below(3)),
         };
@@ -1624,11 +1673,11 @@ fn main() {
 
     let thorough = args.thorough();
     let enums: Vec<String> = if family == "credit" {
-        out.rule = "exhaustive: every op sequence of length <= 4 over alphabet c11 (26 ops: sent 1-3, acks file 0/1 x off 0-3, cancel 2 reasons, advance 0/1, resumes, credit 1-3 with window 2, reconnect, 2 pushes) and length <= 7 over the 10-op alphabet c11s (thorough: <= 5 / <= 8); random: histories of <= 200 ops over the 64-bit boundary lattice (values near sent/acked/window, 2^32, 2^48, 2^63, 2^64-k), hostile acks (future, wrong file, u64::MAX), oversized chunks, one third following the documented producer loop. Distinct by op line; non-trivial = the op changed the observable state or returned something other than unit/timeout".into();
+        out.rule = "exhaustive: every op sequence of length <= 4 over alphabet c11 (26 ops: sent 1-3, acks file 0/1 x off 0-3, cancel with reason r0 and with the empty string, advance 0/1, resumes, credit 1-3 with window 2, reconnect, 2 pushes), length <= 7 over the 10-op alphabet c11s and length <= 5 over the 12-op alphabet c11r (cancel with 8 reason strings: r0, the watchdog's \"transfer idle\", the empty string, blanks \" \\t\\n\", 65537 x 'x', non-ASCII incl. a 4-byte scalar, a NUL, \" Transfer Idle \"; credit, reconnect, advance, resume) (thorough: <= 5 / <= 8 / <= 6); random: cancel reasons drawn from r0-r2 and (one third) those edge strings; histories of <= 200 ops over the 64-bit boundary lattice (values near sent/acked/window, 2^32, 2^48, 2^63, 2^64-k), hostile acks (future, wrong file, u64::MAX), oversized chunks, one third following the documented producer loop. Distinct by op line; non-trivial = the op changed the observable state or returned something other than unit/timeout".into();
         if thorough {
-            vec!["enum e0 c11 5 3".into(), "enum e1 c11s 8 4".into()]
+            vec!["enum e0 c11 5 3".into(), "enum e1 c11s 8 4".into(), "enum e2 c11r 6 3".into()]
         } else {
-            vec!["enum e0 c11 4 4".into(), "enum e1 c11s 7 4".into()]
+            vec!["enum e0 c11 4 4".into(), "enum e1 c11s 7 4".into(), "enum e2 c11r 5 3".into()]
         }
     } else {
         out.rule = "exhaustive: every push/resume/reconnect/advance/cancel/replay sequence of length <= 4 over alphabet c13 (21 ops: chunk sizes 0-2 x wire overhead 0-1, resumes at 0-4 and wrong file) for capacities 0,2,3,2^64-1, length <= 5 for capacity 2, and length <= 7 over the 8-op alphabet c13s for capacities 0,2,3 (thorough: <= 5 all capacities, <= 8); random: histories of <= 200 ops with capacities 0..2^64-1, bodies 0-600 bytes, logical != wire lengths, resumes at ring boundaries / trailing edge / mid-chunk / evicted offsets / hostile values. Distinct by op line; non-trivial = the op changed the observable state or returned something other than unit/timeout".into();
